@@ -644,6 +644,62 @@ func (in *Interp) checkNilPtr(p *Value) {
 	}
 }
 
+// SymPtr is a pointer to one of several scalar cells selected by a symbolic
+// index (result of IndexAddr with a symbolic index into a small array/slice
+// of scalars).  Loads build an ite-chain, stores update every cell.
+type SymPtr struct {
+	arr []Value
+	idx *Term
+}
+
+func scalarCells(arr []Value) bool {
+	if len(arr) == 0 || len(arr) > 256 {
+		return false
+	}
+	w := -1
+	for _, e := range arr {
+		t, ok := e.(*Term)
+		if !ok {
+			return false
+		}
+		if w == -1 {
+			w = t.w
+		} else if w != t.w {
+			return false
+		}
+	}
+	return true
+}
+
+func (in *Interp) symLoad(p SymPtr) Value {
+	n := len(p.arr)
+	r := p.arr[n-1].(*Term)
+	for i := n - 2; i >= 0; i-- {
+		r = in.tt.Ite(in.tt.Eq(p.idx, in.tt.Const(p.idx.w, uint64(i))), p.arr[i].(*Term), r)
+	}
+	return r
+}
+
+func (in *Interp) symStore(p SymPtr, v Value) {
+	vt := v.(*Term)
+	for i := range p.arr {
+		p.arr[i] = in.tt.Ite(in.tt.Eq(p.idx, in.tt.Const(p.idx.w, uint64(i))), vt, p.arr[i].(*Term))
+	}
+}
+
+// boundsCheck forks a panicking path when idx can be outside [0,n).
+func (in *Interp) boundsCheck(idx *Term, n int) {
+	var inb *Term
+	if n == 0 {
+		inb = in.tt.tFalse
+	} else {
+		inb = in.tt.Cmp(OpBvUlt, idx, in.tt.Const(idx.w, uint64(n)))
+	}
+	if !in.forkBool(inb) {
+		in.throw(fmt.Sprintf("index out of range [symbolic] with length %d", n))
+	}
+}
+
 func asPtr(v Value) *Value {
 	switch v := v.(type) {
 	case *Value:
@@ -738,6 +794,10 @@ func (in *Interp) visitInstr(fr *frame, instr ssa.Instruction) continuation {
 		in.chanSend(fr.get(instr.Chan).(*Chan), fr.get(instr.X), true)
 
 	case *ssa.Store:
+		if sp, ok := fr.get(instr.Addr).(SymPtr); ok {
+			in.symStore(sp, fr.get(instr.Val))
+			break
+		}
 		p := asPtr(fr.get(instr.Addr))
 		in.checkNilPtr(p)
 		store(p, fr.get(instr.Val))
@@ -844,11 +904,21 @@ func (in *Interp) visitInstr(fr *frame, instr ssa.Instruction) continuation {
 		idx := fr.get(instr.Index).(*Term)
 		switch x := x.(type) {
 		case Slice:
+			if idx.op != OpConst && scalarCells(x.arr[:x.len]) {
+				in.boundsCheck(idx, x.len)
+				fr.env[instr] = SymPtr{arr: x.arr[:x.len], idx: idx}
+				break
+			}
 			i := in.boundsIndex(idx, instr.Index.Type(), x.len)
 			fr.env[instr] = &x.arr[i]
 		case *Value:
 			in.checkNilPtr(x)
 			a := (*x).(Array)
+			if idx.op != OpConst && scalarCells(a) {
+				in.boundsCheck(idx, len(a))
+				fr.env[instr] = SymPtr{arr: a, idx: idx}
+				break
+			}
 			i := in.boundsIndex(idx, instr.Index.Type(), len(a))
 			fr.env[instr] = &a[i]
 		default:
@@ -860,15 +930,15 @@ func (in *Interp) visitInstr(fr *frame, instr ssa.Instruction) continuation {
 		idx := fr.get(instr.Index).(*Term)
 		switch x := x.(type) {
 		case Array:
+			if idx.op != OpConst && scalarCells(x) {
+				in.boundsCheck(idx, len(x))
+				fr.env[instr] = in.symLoad(SymPtr{arr: x, idx: idx})
+				break
+			}
 			i := in.boundsIndex(idx, instr.Index.Type(), len(x))
 			fr.env[instr] = copyVal(x[i])
 		case Str:
-			i := in.boundsIndex(idx, instr.Index.Type(), x.Len())
-			if x.sym != nil {
-				fr.env[instr] = x.sym[i]
-			} else {
-				fr.env[instr] = in.tt.Const(8, uint64(x.s[i]))
-			}
+			fr.env[instr] = in.strIndex(x, idx, instr.Index.Type())
 		default:
 			panic(fmt.Sprintf("unexpected x type in Index: %T", x))
 		}
@@ -911,6 +981,23 @@ func (in *Interp) pos(instr ssa.Instruction) string {
 		return "?"
 	}
 	return in.prog.Fset.Position(p).String()
+}
+
+func (in *Interp) strIndex(x Str, idx *Term, it types.Type) Value {
+	if idx.op != OpConst && x.Len() > 0 && x.Len() <= 256 {
+		in.boundsCheck(idx, x.Len())
+		bs := in.strBytes(x)
+		arr := make([]Value, len(bs))
+		for i, b := range bs {
+			arr[i] = b
+		}
+		return in.symLoad(SymPtr{arr: arr, idx: idx})
+	}
+	i := in.boundsIndex(idx, it, x.Len())
+	if x.sym != nil {
+		return x.sym[i]
+	}
+	return in.tt.Const(8, uint64(x.s[i]))
 }
 
 // boundsIndex checks 0 <= idx < n (forking a panicking path when it can fail)
